@@ -31,6 +31,10 @@ def ode_evals(f):
                 out.append((c, c.keywords))
             elif isinstance(c.func, ast.Attribute) and c.func.attr == "call" and c.args and is_call_to(c.args[0], "dict"):
                 out.append((c, c.args[0].keywords))
+            elif isinstance(c.func, ast.Attribute) and c.func.attr == "call" and c.args and isinstance(c.args[0], ast.Dict) \
+                    and all(isinstance(k, ast.Constant) and isinstance(k.value, str) for k in c.args[0].keys):
+                # canonical form of dict(x=..) is the literal {'x': ..}
+                out.append((c, [ast.keyword(arg=k.value, value=v) for k, v in zip(c.args[0].keys, c.args[0].values)]))
     return out
 
 
